@@ -91,7 +91,13 @@ func ReadPrivateKeyFromHex(Dhex string) (*sm2.PrivateKey,error) {
 
 
 func WritePrivateKeyToHex(key *sm2.PrivateKey) string {
-	return key.D.Text(16)
+	// fixed width (32 bytes): ReadPrivateKeyFromHex decodes whole bytes, so a minimal-length
+	// rendering with an odd number of digits could not be read back
+	d := key.D.Bytes()
+	if n := len(d); n < 32 {
+		d = append(zeroByteSlice()[:32-n], d...)
+	}
+	return hex.EncodeToString(d)
 }
 
 func ReadPublicKeyFromHex(Qhex string) (*sm2.PublicKey, error) {
